@@ -93,6 +93,40 @@ func linkGrid(rng *rand.Rand, full bool) []attrCase {
 	return cases
 }
 
+// urlGrid: the C03 generator: every URL fragment at every URL position (the 15 element/attribute
+// pairs and a few that are not URL positions) under policies with and without a src rewriter, custom
+// scheme policies, scheme patterns, relative URLs on/off, URL checking off
+func urlGrid() []attrCase {
+	var cases []attrCase
+	pos := [][2]string{{"a", "href"}, {"area", "href"}, {"base", "href"}, {"link", "href"}, {"blockquote", "cite"}, {"del", "cite"}, {"ins", "cite"}, {"q", "cite"},
+		{"audio", "src"}, {"embed", "src"}, {"iframe", "src"}, {"img", "src"}, {"input", "src"}, {"script", "src"}, {"source", "src"}, {"track", "src"}, {"video", "src"},
+		{"b", "src"}, {"img", "href"}, {"a", "src"}}
+	var els []string
+	for _, p := range pos {
+		els = append(els, p[0])
+	}
+	base := []Op{{Kind: "elements", Names: els}, {Kind: "attrs", Names: []string{"href", "src", "cite", "id"}, Scope: "G"}}
+	mk := func(name string, ops ...Op) *PolicySpec {
+		return &PolicySpec{Name: name, Ops: append(append([]Op{}, base...), ops...)}
+	}
+	pols := []*PolicySpec{
+		mk("ug-proxy", Op{Kind: "schemes", Names: []string{"http", "https", "mailto"}}, Op{Kind: "relative", B: true}, Op{Kind: "rewritesrc", CB: "proxy"}),
+		mk("ug-proxy-data", Op{Kind: "schemes", Names: []string{"http", "https"}}, Op{Kind: "schemecustom", Scheme: "data", CB: "data"}, Op{Kind: "rewritesrc", CB: "proxy"}),
+		mk("ug-id-norel", Op{Kind: "schemes", Names: []string{"https", "tel", "x"}}, Op{Kind: "rewritesrc", CB: "id"}),
+		mk("ug-plain", Op{Kind: "schemes", Names: []string{"http", "https", "mailto"}}, Op{Kind: "relative", B: true}),
+		mk("ug-regex", Op{Kind: "schemesmatching", Re: `^(ht|f)tps?$`}, Op{Kind: "relative", B: true}, Op{Kind: "rewritesrc", CB: "proxy"}),
+		mk("ug-off", Op{Kind: "schemes", Names: []string{"http"}}, Op{Kind: "rewritesrc", CB: "proxy"}, Op{Kind: "parseable", B: false}),
+	}
+	for _, ps := range pols {
+		for _, p := range pos {
+			for _, u := range urlFrags {
+				cases = append(cases, attrCase{ps, p[0], []html.Attribute{{Key: p[1], Val: u}, {Key: "id", Val: "i"}}})
+			}
+		}
+	}
+	return cases
+}
+
 // forcedGrid: the C12 generator: crossorigin and sandbox
 func forcedGrid(rng *rand.Rand, full bool) []attrCase {
 	var cases []attrCase
@@ -185,6 +219,9 @@ func attrsMode(args []string) {
 	}
 	if *which == "forced" || *which == "all" {
 		cases = append(cases, forcedGrid(rng, *full)...)
+	}
+	if *which == "url" || *which == "all" {
+		cases = append(cases, urlGrid()...)
 	}
 	if *which == "general" || *which == "all" {
 		n := 40
